@@ -12,8 +12,10 @@ META = {
             "splitting writes, every TCP segmentation, every behaviour of the message reader and every sequence of read "
             "buffer sizes, what has been read followed by what is in flight equals what was written, ClientHello first, "
             "identically in all modes; reads make progress while bytes are owed; and in the finite model of "
-            "JoinConn's close propagation every execution after either side closes is at most eight steps long and ends "
-            "with both sides' reads returned. Chunk size, buffer sizes and 19 function bodies are regenerated from /repo "
+            "JoinConn's close propagation - with the policy 'a returning copy loop closes both connections' regenerated "
+            "from the source - every execution after either side closes is at most eleven steps long and ends with both "
+            "sides' pending reads and the reads issued afterwards returned (sideConn.Read forgets the end marker, so the "
+            "later reads end only because the websocket gets closed: stated and proved as an explicit dependency). Chunk size, buffer sizes and 19 function bodies are regenerated from /repo "
             "on every run; the stage models are tied to the code by differential runs evaluated in Coq, and a real "
             "Server+endpoint per tunnel mode carries position-dependent payloads of boundary sizes both ways.",
     "note": "Partial (runtime): the interleaving of the two copy loops, TCP segmentation, websocket buffering and the "
@@ -67,6 +69,8 @@ def script_term(script):
             ms.append("MText")
         elif t == "close":
             ms.append("MClose %d" % f.get("code", 0))
+        elif t == "hold":
+            pass                      # the websocket stays open and silent: nothing more arrives
         else:
             ms.append("MErr")
     return "[" + "; ".join(ms) + "]"
@@ -78,7 +82,8 @@ def read_term(r):
     need = len(r["script"]) + 4 + sum(f["len"] // min(bufs) + 1 for f in r["script"])
     ms = [bufs[i % len(bufs)] for i in range(need)]
     ended = {"eof": 1, "error": 2}.get(r["ended"], 9)
-    return "KRead %s %s %d %d" % (script_term(r["script"]), nlist(ms), r["total"], ended)
+    later = [{"data": 0, "eof": 1, "error": 2, "block": 3}.get(k, 9) for k in r.get("later") or []]
+    return "KRead %s %s %d %d %s" % (script_term(r["script"]), nlist(ms), r["total"], ended, nlist(later))
 
 
 def reply_term(p):
@@ -113,7 +118,11 @@ def to_coq(c):
             return None
         if e.get("setup_err"):
             return "KPipe [1] [1] []"
-        return "KClose %s %s" % (cbool(e["closer"] == "client"), cbool(e["end_kind"] in ("eof", "error")))
+        later = e.get("later_reads") or []
+        return "KClose %d %s %s %s" % (
+            {"legacy": 0, "siding": 1, "sidingaddr": 2}[e["mode"]], cbool(e["closer"] == "client"),
+            cbool(e["end_kind"] in ("eof", "error")),
+            cbool(len(later) == 2 and all(k in ("eof", "error") for k in later)))
     return None
 
 
@@ -144,6 +153,10 @@ def impl_oracle(c):
                     "(script %s, buffers %s, %d read)" % ([(f["t"], f["len"]) for f in r["script"]], r["bufs"], r["total"]))
         if r["ended"] not in ("eof", "error"):
             return ("side-read-hung", "sideConn.Read did not end after the peer's end marker: %s" % r["ended"])
+        closed = any(f["t"] in ("lost", "close") for f in r["script"])
+        if closed and "block" in (r.get("later") or []):
+            return ("side-later-read-hung", "the websocket was closed, yet a Read after the first end blocked: %s"
+                    % r.get("later"))
     elif s == "reply":
         p = c["reply"]
         if p["len"] <= p["cap"] and not (p["n"] == p["len"] and p["view_ok"]):
@@ -165,9 +178,18 @@ def impl_oracle(c):
             if not d["complete"]:
                 return ("e2e-incomplete:%s" % e["mode"], "%s, %s: %d of %d bytes arrived while both sides were open (%s; %s)"
                         % (e["mode"], name, d["received"], d["sent"], d.get("err", ""), e["splits"]))
+        other = "application" if e["closer"] == "client" else "client"
         if e["end_kind"] not in ("eof", "error"):
-            return ("e2e-close-hung:%s" % e["mode"], "%s: after the %s closed, the other side's read did not end within "
-                    "the bound (%s)" % (e["mode"], e["closer"], e["end_kind"]))
+            return ("e2e-close-hung:%s" % e["mode"], "%s: after the %s closed, the %s's pending read did not end within "
+                    "the bound (%s)" % (e["mode"], e["closer"], other, e["end_kind"]))
+        later = e.get("later_reads") or []
+        if any(k not in ("eof", "error") for k in later) or len(later) != 2:
+            return ("e2e-later-read-hung:%s" % e["mode"], "%s: the %s closed first; the %s's pending read ended with %s, "
+                    "but the reads it issued afterwards returned %s (each must end within 10 s)"
+                    % (e["mode"], e["closer"], other, e["end_kind"], later))
+        if e.get("late_write") not in ("ok", "error"):
+            return ("e2e-late-write-hung:%s" % e["mode"], "%s: the %s closed first; a Write by the %s afterwards did not "
+                    "return within the bound (%s)" % (e["mode"], e["closer"], other, e.get("late_write")))
     return None
 
 
@@ -275,7 +297,8 @@ def run(ck):
              "cyclic buffer sizes; reply = read replies into smaller/equal/larger caller buffers; pipe = net.Pipe write/"
              "read size mixes; e2e = per tunnel mode a real or synthetic ClientHello (up to a full record) + payloads of "
              "the boundary sizes in both directions at once with random write splits (also inside the hello) and read "
-             "sizes, then client or application closes; corpus of boundary sizes per mode first; non-trivial unless both "
+             "sizes, then client or application closes and the surviving side issues the pending read, two more reads "
+             "and a write, each bounded by 10 s; after three bound hits of a mode or stream the rest of it is skipped; corpus of boundary sizes per mode first; non-trivial unless both "
              "payloads are empty; distinct = distinct case bodies",
         assumptions=["a websocket delivers whole messages in order; net.Pipe and TCP deliver bytes in order",
                      "the endpoint is honest (read replies no longer than asked for)",
